@@ -21,6 +21,13 @@ CLAIMED = {
  "C10": dict(level="proof", technique="static analysis: interval+zone abstract interpretation of rustc MIR (bounds/overflow/slice obligations), path-sensitive must-guard dataflow for acceptance guards and a closed world of None/Err verdicts",
    text="Totality of the three decoder functions is proved for every input slice (all Assert and slice-API obligations discharged by the zone domain; reported length within the input; no loops). Acceptance guards (both start delimiters, both length bytes, FC, checksum byte and range, end delimiter) hold on every accepting path class; every None/Err verdict matches an enumerated frame-format reason. The single-byte-corruption (Hamming) argument is not decided.",
    note="Trusted: " + TB + "; numdom transfer functions; core slice API preconditions as encoded; the debug_assert in TokenTelegram::deserialize is discharged by its only in-crate caller (assumption listed in evidence).", ref="§4-C10"),
+
+ "C09": dict(level="proof", technique="static analysis: writer/reader table extraction from rustc MIR (match tables, masks, shifts, discriminants), exhaustive enumeration over the extracted finite tables, zone-domain store offsets, closed world of decoder verdicts",
+   text="Function-code round trip is established for all 84 request/response codes by enumerating the extracted tables (discriminants = PROFIBUS code points, from_u8 exact inverses, writer bit layout vs reader masks/shifts, FCB tables). Frame-format selection, telegram_len, reader format table, extension bits, header octet offsets, checksum range, ED/SC/SD4 constants and reported byte counts agree between writer and reader; every reject/wait condition of the reader is a frame-format violation. Payload bytes are copied verbatim by the slice API (not re-proved).",
+   note="Trusted: " + TB + "; rules/spec_tables.json; numdom for absolute store offsets; memcpy contract.", ref="§4-C09"),
+ "C17": dict(level="proof", technique="static analysis: interval+zone abstract interpretation with an inductive field invariant (length <= len(buffer)) proved over all writers, per-path counters, table extraction and sibling-decoder comparison over rustc MIR",
+   text="Every bounds/slice/overflow obligation of ExtDiagBlockIter::next, raw_diag_buffer and fill is discharged for every buffer content under the proven invariant; every yielded block advances the cursor by >= 1 and None is terminal; block-kind / length-mask / channel-field / data-type / error tables match DP-V0; the peripheral's and the scanner's 6-byte header decoders extract identical fields with identical guards and keep every flag bit; fill copies only what fits.",
+   note="Trusted: " + TB + "; numdom transfer functions; ManagedSlice Deref length stability; rules/spec_tables.json.", ref="§4-C17"),
 }
 
 NA = {
